@@ -366,20 +366,6 @@ theorem lExt_runPend (cfg : Cfg) (hf13 : cfg.f13 = true) (m : Mem) (p : Pend) (h
     exact h0.trans (h1.trans (lExt_setNext _ _ _ _ hai _ _ _ ((h1.heap _).1 (hc0 last hmem))))
   · exact h0.trans h1
 
-theorem cacheNew_acctInfo (sc : Nat) (w : Bool) (m : Mem) (e : Dou) (sc' : Nat) :
-    ((cacheNew sc w m e).scopes sc').acctInfo = (m.scopes sc').acctInfo := by
-  unfold cacheNew
-  simp only [Mem.updScope]
-  split
-  · rename_i h; rw [h]
-  · rfl
-
-theorem foldl_cacheNew_acctInfo (sc : Nat) (w : Bool) (m : Mem) (es : List Dou) (sc' : Nat) :
-    ((es.foldl (cacheNew sc w) m).scopes sc').acctInfo = (m.scopes sc').acctInfo := by
-  induction es generalizing m with
-  | nil => rfl
-  | cons e es ih => simp only [List.foldl]; rw [ih, cacheNew_acctInfo]
-
 theorem lExt_extend (cfg : Cfg) (d : Disk) (m : Mem) (sc a li : Nat) (int : Bool) (hl : m.locked = true) :
     LExt m (extendAddresses cfg d m sc a li int).2.1 := by
   unfold extendAddresses
